@@ -214,6 +214,22 @@ func fileOracle(prop string, d progen.FileParams, res *Result) []string {
 		return out
 	}
 	// C14
+	// "nothing outside the pipestance directory is touched": files the stages
+	// wrote outside are still there
+	{
+		var outside []string
+		for wp := range res.Written {
+			if !strings.HasPrefix(wp, res.PsPath+"/") && !strings.HasPrefix(wp, filepath.Dir(res.PsPath)+"/link/") {
+				outside = append(outside, wp)
+			}
+		}
+		sort.Strings(outside)
+		for _, wp := range outside {
+			if _, err := os.Lstat(wp); err != nil {
+				out = append(out, "a file outside the pipestance directory was removed: "+strings.TrimPrefix(wp, filepath.Dir(res.PsPath)))
+			}
+		}
+	}
 	// "VDR reclaims what it MAY": a file named by a top-level output or by a
 	// retain declaration is not reclaimable (the same observation C04 makes).
 	for _, kp := range keptPaths {
